@@ -30,6 +30,41 @@ pub fn check_snapshot_consistency(snapshot: &Snapshot<u64>) -> Check {
     Ok(())
 }
 
+/// Expiry index against the held entries at quiescence (entries of ids that are gone may linger: harmless).
+/// An inconsistency on a key whose index-changing writes (TTL puts, TTL-setting / TTL-removing upserts) overlapped in time
+/// is the recorded finding F10 (index maintenance is not atomic with the store update); anything else is unexplained.
+pub fn check_index(history: &History, snapshot: &Snapshot<u64>) -> Check {
+    let writes = writes_of(history);
+    let racing = |key: u64| -> bool {
+        let touching: Vec<&WriteView> = writes.iter().filter(|write| write.key as u64 == key && !write.err && (write.ttl_ns.is_some() || write.removes_ttl || write.kind == "put" || write.kind == "delete")).collect();
+        for (index, first) in touching.iter().enumerate() {
+            for second in touching.iter().skip(index + 1) {
+                if !(first.ttl_ns.is_some() || first.removes_ttl || second.ttl_ns.is_some() || second.removes_ttl) { continue; }
+                let first_end = first.rec.end.max(first.seen_done);
+                let second_end = second.rec.end.max(second.seen_done);
+                if first.rec.start <= second_end && second.rec.start <= first_end { return true; }
+            }
+        }
+        false
+    };
+    let mut index: HashMap<u64, Vec<(std::time::SystemTime, usize)>> = HashMap::new();
+    for entry in &snapshot.ttl { index.entry(entry.id).or_default().push((entry.expire_after, entry.shard)); }
+    for entry in &snapshot.store {
+        let problem = match (entry.expire_after, index.get(&entry.id)) {
+            (Some(expiry), Some(entries)) if entries.len() == 1 && entries[0].0 == expiry => None,
+            (Some(expiry), Some(entries)) => Some(("stale", format!("key {} (id {}) expires at {:?} but the expiry index holds {:?} for it: it will be swept at the wrong time", entry.key, entry.id, expiry, entries), vec!["C09".to_string()])),
+            (Some(expiry), None) => Some(("missing", format!("key {} (id {}) expires at {:?} but has no entry in the expiry index: it can never be swept", entry.key, entry.id, expiry), vec![])),
+            (None, Some(entries)) => Some(("leftover", format!("key {} (id {}) has no time-to-live but is in the expiry index ({:?}): a sweep will remove it", entry.key, entry.id, entries), vec!["C09".to_string()])),
+            (None, None) => None,
+        };
+        if let Some((kind, message, also)) = problem {
+            let tag = if racing(entry.key) { "C10/conc/index-race".to_string() } else { format!("C10/conc/index-{}", kind) };
+            return Err(Failure::new("C10", &tag, message).with_also(also));
+        }
+    }
+    Ok(())
+}
+
 struct WriteView<'a> {
     rec: &'a Rec,
     key: u8,
@@ -39,11 +74,12 @@ struct WriteView<'a> {
     seen_done: u64,
     in_place: Option<bool>,
     ttl_ns: Option<u128>,
+    removes_ttl: bool,
 }
 
 fn writes_of(history: &History) -> Vec<WriteView<'_>> {
     history.recs.iter().filter_map(|rec| match &rec.outcome {
-        Outcome::Write { key, kind, err, status, seen_done, in_place, ttl_ns, .. } => Some(WriteView { rec, key: *key, kind, err: *err, status: *status, seen_done: *seen_done, in_place: *in_place, ttl_ns: *ttl_ns }),
+        Outcome::Write { key, kind, err, status, seen_done, in_place, ttl_ns, removes_ttl, .. } => Some(WriteView { rec, key: *key, kind, err: *err, status: *status, seen_done: *seen_done, in_place: *in_place, ttl_ns: *ttl_ns, removes_ttl: *removes_ttl }),
         _ => None,
     }).collect()
 }
@@ -282,6 +318,33 @@ pub fn check_c11_final(history: &History, snapshot: &Snapshot<u64>) -> Check {
     Ok(())
 }
 
+/// C10 in concurrent histories: after the final rotation (one complete sweep of every shard) no key whose deadline lay
+/// before the rotation may be left, and its weight must be released (the bijection check covers the weight).
+pub fn check_c10(history: &History, snapshot: &Snapshot<u64>) -> Check {
+    if !history.rotated { return Ok(()); }
+    let start = std::time::UNIX_EPOCH + Duration::from_nanos(history.rotation_start_ns);
+    for entry in &snapshot.store {
+        if let Some(expiry) = entry.expire_after {
+            ensure!(expiry >= start, "C10", "C10/conc/not-swept-after-rotation", "key {} (id {}) expired at {:?}, before the final rotation started at {:?}, and is still held after one complete sweep of every shard", entry.key, entry.id, expiry, start);
+        }
+    }
+    Ok(())
+}
+
+/// C16 at quiescence of a concurrent history (no shutdown): counter identities that need no model.
+pub fn check_c16(history: &History, snapshot: &Snapshot<u64>) -> Check {
+    if history.shutdown_called { return Ok(()); }
+    let stat = |name: &str| history.final_stats.get(name).copied().unwrap_or(0);
+    let mut lookups: u64 = 0;
+    for rec in &history.recs {
+        match &rec.outcome { Outcome::Read { keys, .. } => lookups += keys.len() as u64, Outcome::HoldRef { .. } => lookups += 1, _ => {} }
+    }
+    ensure!(stat("hits") + stat("misses") == lookups, "C16", "C16/conc/lookups", "hits {} + misses {} != {} key lookups performed", stat("hits"), stat("misses"), lookups);
+    ensure!(stat("keys_added").wrapping_sub(stat("keys_deleted")) == snapshot.store.len() as u64, "C16", "C16/conc/keys", "KeysAdded {} - KeysDeleted {} != {} keys held", stat("keys_added"), stat("keys_deleted"), snapshot.store.len());
+    ensure!(stat("weight_added").wrapping_sub(stat("weight_removed")) == snapshot.weight_used as u64, "C16", "C16/conc/weight", "WeightAdded {} - WeightRemoved {} != total weight used {}", stat("weight_added"), stat("weight_removed"), snapshot.weight_used);
+    Ok(())
+}
+
 pub fn check_progress(history: &History) -> Check {
     if let Some(blocked) = &history.blocked {
         if blocked.starts_with("INCONCLUSIVE") { return Err(Failure::new("INCONCLUSIVE", "inconclusive/slow", blocked.clone())); }
@@ -320,6 +383,8 @@ pub struct ConcStats {
     pub unawaited_same_key: bool,
     pub read_between_delete_and_ack: bool,
     pub guard_held_during_delete: bool,
+    pub ttl_writes: u64,
+    pub rotated: bool,
     pub puts_on_settled_keys: u64,
     pub sole_writer_put_then_delete: bool,
     pub eviction_loop_delayed: bool,
@@ -359,6 +424,8 @@ pub fn conc_stats(case: &ConcCase, history: &History) -> ConcStats {
     stats.handovers = (history.final_stats.get("access_added").copied().unwrap_or(0) + history.final_stats.get("access_dropped").copied().unwrap_or(0)) / buf.max(1);
     stats.drops = history.final_stats.get("access_dropped").copied().unwrap_or(0);
     stats.sweeps_during_run = !history.clock_log.is_empty();
+    stats.rotated = history.rotated;
+    stats.ttl_writes = writes.iter().filter(|write| write.ttl_ns.is_some() && write.status == Some(St::Accepted)).count() as u64;
     stats.eviction_loop_delayed = history.site_hits.get(Site::CreateSpaceLoop as usize).copied().unwrap_or(0) > 0;
     stats.swept_during_run = history.site_hits.get(Site::SweeperInRetain as usize).copied().unwrap_or(0) > 0;
     for write in writes.iter().filter(|write| write.kind == "delete" && !write.err && write.seen_done > 0) {
@@ -552,7 +619,7 @@ pub fn check_conc(case: &ConcCase, run: &ConcRun, property: &str) -> Check {
     let history = &run.history;
     let start_clock = BASE_SECS * 1_000_000_000 + case.cfg.start_ns;
     let ordered: Vec<&str> = {
-        let all = ["progress", "C13", "C11", "C02", "C07", "C01", "C05", "C15"];
+        let all = ["progress", "C13", "C11", "C02", "C07", "C01", "C05", "C10", "C16", "C15", "index"];
         // progress first: a blocked or crashed run has an incomplete history, which the other checkers must not judge
         let mut first: Vec<&str> = vec!["progress"];
         first.extend(all.iter().copied().filter(|name| *name == property && *name != "progress"));
@@ -569,6 +636,9 @@ pub fn check_conc(case: &ConcCase, run: &ConcRun, property: &str) -> Check {
             "C01" => check_c01(history, case.cfg.max_weight)?,
             "C05" => { if let Some(snapshot) = &run.snapshot { check_snapshot_consistency(snapshot)?; } }
             "C15" => check_c15(case, history)?,
+            "C10" => { if let Some(snapshot) = &run.snapshot { check_c10(history, snapshot)?; } }
+            "index" => { if let Some(snapshot) = &run.snapshot { check_index(history, snapshot)?; } }
+            "C16" => { if let Some(snapshot) = &run.snapshot { check_c16(history, snapshot)?; } }
             _ => {}
         }
     }
